@@ -11,7 +11,12 @@ func funcComputedCompute(ctx *Context, this *VMValue, params []*VMValue) *VMValu
 }
 
 func funcArrayKeepLow(ctx *Context, this *VMValue, params []*VMValue) *VMValue {
-	isAllInt, ret := this.ArrayFuncKeepLow(ctx, params[0].MustReadInt())
+	num, ok := params[0].ReadInt()
+	if !ok {
+		ctx.Error = errors.New("(arr).kl: 参数类型错误，需要整数")
+		return nil
+	}
+	isAllInt, ret := this.ArrayFuncKeepLow(ctx, num)
 	if isAllInt {
 		return NewIntVal(IntType(ret))
 	} else {
@@ -20,7 +25,12 @@ func funcArrayKeepLow(ctx *Context, this *VMValue, params []*VMValue) *VMValue {
 }
 
 func funcArrayKeepHigh(ctx *Context, this *VMValue, params []*VMValue) *VMValue {
-	isAllInt, ret := this.ArrayFuncKeepHigh(ctx, params[0].MustReadInt())
+	num, ok := params[0].ReadInt()
+	if !ok {
+		ctx.Error = errors.New("(arr).kh: 参数类型错误，需要整数")
+		return nil
+	}
+	isAllInt, ret := this.ArrayFuncKeepHigh(ctx, num)
 	if isAllInt {
 		return NewIntVal(IntType(ret))
 	} else {
